@@ -40,7 +40,7 @@ def split_cases(lines):
 
 
 def run_shard(args):
-    exe, judge, case_lines, workdir, idx, timeout, judge_args = args
+    exe, judge, case_lines, workdir, idx, timeout, judge_args, stdin_mode = args
     inp = os.path.join(workdir, 'in%d.txt' % idx)
     obs = os.path.join(workdir, 'obs%d.txt' % idx)
     ver = os.path.join(workdir, 'ver%d.txt' % idx)
@@ -49,23 +49,31 @@ def run_shard(args):
             f.write('\n'.join(c) + '\n')
     env = dict(os.environ, ASAN_OPTIONS='detect_leaks=0:abort_on_error=0:allocator_may_return_null=1', UBSAN_OPTIONS='print_stacktrace=1')
     with open(obs, 'w') as fo:
-        subprocess.run([exe, '-t', str(timeout), '-e', workdir, inp], stdout=fo, stderr=subprocess.DEVNULL, env=env)
+        if stdin_mode:
+            with open(inp) as fi:
+                subprocess.run([exe], stdin=fi, stdout=fo, stderr=subprocess.DEVNULL, env=env)
+        else:
+            subprocess.run([exe, '-t', str(timeout), '-e', workdir, inp], stdout=fo, stderr=subprocess.DEVNULL, env=env)
     with open(obs) as fi, open(ver, 'w') as fo:
         subprocess.run([judge] + judge_args, stdin=fi, stdout=fo, stderr=subprocess.DEVNULL)
     return obs, ver
 
 
-def run_cases(cases, flavour='c', timeout=20, judge_args=None, keep_obs=True, harness_exe=None):
+def run_cases(cases, flavour='c', timeout=20, judge_args=None, keep_obs=True, harness_exe=None, kind='yaep'):
     """cases: list of lists of lines.  Returns Result."""
     t0 = time.time()
-    exe = harness_exe or build.build_harness(flavour)
     judge = build.build_lean()
+    if kind == 'containers':
+        exe = harness_exe or build.build_containers(flavour)
+        judge = os.path.join(os.path.dirname(judge), 'containers_model')
+    else:
+        exe = harness_exe or build.build_harness(flavour)
     res = Result()
     workdir = tempfile.mkdtemp(prefix='run-', dir=build.WORK)
     try:
         nsh = max(1, min(JOBS, len(cases)))
         shards = [cases[i::nsh] for i in range(nsh)]
-        jobs = [(exe, judge, sh, workdir, i, timeout, judge_args or []) for i, sh in enumerate(shards)]
+        jobs = [(exe, judge, sh, workdir, i, timeout, judge_args or [], kind == 'containers') for i, sh in enumerate(shards)]
         with ThreadPoolExecutor(nsh) as ex:
             outs = list(ex.map(run_shard, jobs))
         for c in cases:
